@@ -8,6 +8,7 @@ From AQ Require Import lib.Base lib.Tok model.RangeSet model.RecBase model.Pacer
   proofs.C08Theorems proofs.FlightBudget proofs.CubicFloor.
 From AQ Require gen.C13Consts model.Builder proofs.BuilderProofs proofs.BuilderFlight proofs.BuilderFlightAE.
 From AQ Require gen.C08Probe model.ProbeBudget proofs.ProbeBudgetProofs proofs.ProbeFlight.
+From AQ Require gen.C13Writers model.Writers model.ProbeWriters proofs.ProbeQuiet proofs.ProbeWritersProofs.
 
 (* bytes_in_flight = sum of sent_bytes over tracked in-flight packets of all spaces;
    ack_eliciting_in_flight = number of tracked ack-eliciting packets, per space; keys unique *)
@@ -298,3 +299,109 @@ Theorem probe_bytes_total : forall mds xs, 0 <= mds ->
   ProbeFlight.total_excess xs <= mds * ProbeFlight.raised_calls xs.
 Proof. exact ProbeFlight.probe_bytes_total_thm. Qed.
 Print Assumptions probe_bytes_total.
+
+(* ---------- round e08: the decisions of the probe-allowance machine tied to the writer machine of C13 (model/Writers.v) ---------- *)
+
+(* the generated writer order of _write_application is: the writers ahead of the probe PING (the names the probe generator
+   found ahead of the clear site), the probe PING, the writers after it *)
+Theorem writer_order_pinned :
+  C13Writers.ORDER_write_application = [0; 7; 5; 8; 6; 11; 15; 15; 2; 14; 9] ++ [9] ++ [3; 4; 12; 10; 13] /\
+  map ProbeWriters.writer_name [0; 7; 5; 8; 6; 11; 15; 15; 2; 14; 9] = C08Probe.app_writers_before /\
+  map ProbeWriters.writer_name [3; 4; 12; 10; 13] = C08Probe.app_writers_after.
+Proof. exact ProbeWritersProofs.order_pinned_lemma. Qed.
+Print Assumptions writer_order_pinned.
+
+(* ... and one packet of the writer machine is exactly: before-group, probe PING, after-group *)
+Theorem writer_model_split : forall c s d,
+  Writers.w_app_iter c s d =
+  Writers.wseq (ProbeWriters.w_before c s d)
+               (fun s2 => Writers.wseq (ProbeWriters.w_probe c s2 d) (fun s3 => ProbeWriters.w_after c s3 d)).
+Proof. exact ProbeWritersProofs.app_iter_split. Qed.
+Print Assumptions writer_model_split.
+
+(* one iteration of the 1-RTT packet loop, probe pending, decisions READ OFF the writer machine (abs_iter: any pending frames,
+   sizes, budgets): the flag is still set afterwards and something ack-eliciting was written (the C08-F3 situation; prestop
+   holds then) EXACTLY WHEN the packet is ack-eliciting after the writers ahead of the probe PING and one of them was left by
+   an exception or the PING's own start_frame does not return *)
+Theorem prestop_characterised : forall c s pt d ce s0 s1 tr1 ob sb trb,
+  ProbeBudget.pp s0 = true -> ProbeBudget.halted s0 = false -> ProbeBudget.ae s0 = false ->
+  Writers.ai_ping_probe d = true ->
+  Writers.do_start_packet c s pt = (Builder.ODone, s1, tr1) ->
+  ProbeWriters.w_before c s1 d = (ob, sb, trb) ->
+  let r := ProbeBudget.app_iteration ce (ProbeWriters.abs_iter c s pt d) s0 in
+  (ProbeBudget.pp r = true /\ ProbeBudget.ae r = true /\ ProbeBudget.prestop r = true) <->
+  (ProbeWriters.cur_ackel sb = true /\
+   (ob <> Builder.ODone \/
+    fst (Builder.start_frame c sb C13Writers.W_ping_frame_0_ft C13Writers.W_ping_frame_0_cap) <> Builder.ODone)).
+Proof. exact ProbeWritersProofs.prestop_characterised_thm. Qed.
+Print Assumptions prestop_characterised.
+
+(* the PING's start_frame raises QuicPacketBuilderStop exactly when the room left in the open packet is below its capacity
+   (1 byte; 2 in an empty packet) *)
+Theorem probe_ping_stop_room : forall c s p,
+  Builder.b_cur s = Some p -> Builder.b_hascrypto s = true ->
+  let cap := if Builder.b_tell s - Builder.p_start p <=? Builder.p_hdr p
+             then C13Consts.START_FRAME_EMPTY_RESERVE else C13Writers.W_ping_frame_0_cap in
+  (fst (Builder.start_frame c s C13Writers.W_ping_frame_0_ft C13Writers.W_ping_frame_0_cap) = Builder.OStop
+   <-> ProbeWriters.room s < cap).
+Proof. exact ProbeWritersProofs.ping_stop_room. Qed.
+Print Assumptions probe_ping_stop_room.
+
+(* ONE PROBE PER TIMEOUT WITHOUT THE PRESTOP EXCLUSION: every call takes the decisions of its 1-RTT / 0-RTT packets from the
+   writer machine with NO frame pending for a writer ahead of the probe PING (only the PING, CRYPTO, DATAGRAM and stream
+   frames; any builder state and budgets); handshake-level decisions and everything else free.  Then ALL raised calls that
+   wrote an ack-eliciting frame are at most the grants *)
+Theorem one_probe_per_timeout_no_control_frames : forall h,
+  (forall d, In (ProbeBudget.ECall d) h -> ProbeWritersProofs.call_from_writers d) ->
+  ProbeBudget.s_over (ProbeBudget.run h) <= ProbeBudget.s_grants (ProbeBudget.run h) /\
+  ProbeBudget.s_grants (ProbeBudget.run h) <= ProbeBudget.s_timeouts (ProbeBudget.run h) + 1.
+Proof. exact ProbeWritersProofs.one_probe_no_control_thm. Qed.
+Print Assumptions one_probe_per_timeout_no_control_frames.
+
+(* the same on the decision level: it is enough that in every started packet the before-group wrote nothing ack-eliciting
+   (nothing pending, or an ACK that raised QuicPacketBuilderStop) *)
+Theorem one_probe_per_timeout_quiet : forall h, forallb ProbeQuiet.ev_quiet h = true ->
+  ProbeBudget.s_over (ProbeBudget.run h) <= ProbeBudget.s_grants (ProbeBudget.run h) /\
+  ProbeBudget.s_grants (ProbeBudget.run h) <= ProbeBudget.s_timeouts (ProbeBudget.run h) + 1.
+Proof. exact ProbeQuiet.one_probe_quiet_thm. Qed.
+Print Assumptions one_probe_per_timeout_quiet.
+
+(* a C08-F3 iteration fills its packet: the control frames it wrote ahead of the PING exceed the room the fresh packet had
+   minus 54 (CAP_BEFORE: the largest capacity declared ahead of the PING apart from the ACK) *)
+Theorem prestop_fills_packet : forall c s1 d ob sb trb,
+  ProbeWriters.cur_ackel s1 = false -> ProbeWritersProofs.ctl_fts_ok d ->
+  ProbeWriters.w_before c s1 d = (ob, sb, trb) ->
+  ProbeWriters.cur_ackel sb = true ->
+  (ob = Builder.OStop \/
+   (ob = Builder.ODone /\
+    fst (Builder.start_frame c sb C13Writers.W_ping_frame_0_ft C13Writers.W_ping_frame_0_cap) = Builder.OStop)) ->
+  ProbeWritersProofs.caps_eq s1 sb /\ ProbeWriters.room sb < ProbeWriters.CAP_BEFORE /\
+  Builder.b_tell sb - Builder.b_tell s1 > ProbeWriters.room s1 - ProbeWriters.CAP_BEFORE.
+Proof. exact ProbeWritersProofs.prestop_fills_packet_thm. Qed.
+Print Assumptions prestop_fills_packet.
+
+(* HOW MANY extra over-window datagrams C08-F3 can give: each needs one more C08-F3 iteration; n of them, each in a packet
+   with at least R bytes of room, wrote at least n * (R - 53) bytes of control frames ahead of the PING, so
+   n <= (control-frame bytes written ahead of the PING) / (R - 53) *)
+Theorem f3_extra_datagrams_bounded : forall R ws, ProbeWriters.CAP_BEFORE < R ->
+  Forall (ProbeWritersProofs.f3_iter R) ws ->
+  Zlen ws * (R - ProbeWriters.CAP_BEFORE + 1) <= Builder.zsum (map ProbeWritersProofs.ctl_bytes ws) /\
+  Zlen ws <= Builder.zsum (map ProbeWritersProofs.ctl_bytes ws) / (R - ProbeWriters.CAP_BEFORE + 1).
+Proof. exact ProbeWritersProofs.f3_extra_bounded_thm. Qed.
+Print Assumptions f3_extra_datagrams_bounded.
+
+(* R for the first 1-RTT packet of a raised call (fresh builder, budget = one datagram, no anti-amplification limit) *)
+Theorem raised_first_packet_room : forall c pn s1,
+  Builder.c_max_flight c = Some (Builder.c_mds c) -> Builder.c_max_total c = None ->
+  Builder.start_packet c (Builder.init_st c pn) C13Consts.PT_ONE_RTT = (Builder.ODone, s1) ->
+  ProbeWriters.room s1 = Builder.c_mds c - Builder.header_size c C13Consts.PT_ONE_RTT - C13Consts.AEAD_TAG_SIZE /\
+  ProbeWriters.cur_ackel s1 = false.
+Proof. exact ProbeWritersProofs.raised_first_packet_room. Qed.
+Print Assumptions raised_first_packet_room.
+
+(* the decision of the refuting history of C08-F3 is REALISABLE: 300 pending MAX_STREAM_DATA frames, datagram size 1200 *)
+Theorem flood_decision_realisable :
+  ProbeWriters.abs_iter ProbeWritersProofs.flood_cfg (Builder.init_st ProbeWritersProofs.flood_cfg 0) C13Consts.PT_ONE_RTT
+                        ProbeWritersProofs.flood_pending = ProbeBudgetProofs.it_flood.
+Proof. exact ProbeWritersProofs.flood_realisable_lemma. Qed.
+Print Assumptions flood_decision_realisable.
